@@ -1758,6 +1758,108 @@ theorem eviction_resend_any_node (st0 : State) (hinv : Inv colsOf st0) (k : Nat)
   exact ⟨by rw [hb], ⟨p, hd2, by rw [hpidp, hpid]⟩, ⟨rq, hf2, hrqid, rfl, rfl, rfl, rfl, rfl, rfl⟩⟩
 
 
+/-- the state in which the re-sent EXECUTE is in flight (`g` of `eviction_transparent`), with everything the later steps
+need: used by the theorems about node EVENTS falling inside the operation -/
+theorem eviction_chain (st0 : State) (hinv : Inv colsOf st0) (k : Nat) (op : ExecOp) (cached : Option RMeta)
+    (uid : SId) (s : Nat)
+    (hc : st0.caller k = ⟨.exec1 op cached, .resp (.unprepared uid)⟩)
+    (hobj : op.obj < st0.nObjs) (txt : String) (hs : stmtOfText txt = some s) (htext : (st0.objs op.obj).text = txt)
+    (hid : (st0.objs op.obj).id = idOf txt (((st0.node op.node).st s).idv))
+    (hpf : ((st0.node op.node).st s).prepFail = false)
+    (ys0 ys1 ys2 ys3 : List Step)
+    (h0 : Others k ys0) (h1 : Others k ys1) (h2 : Others k ys2) (h3 : Others k ys3) :
+    let a := exec st0 ys0
+    let b := recv a k
+    let c := exec b.1 ys1
+    let d := serveStep c k
+    let e := exec d.1 ys2
+    let f := recv e k
+    let g := exec f.1 ys3
+    ∃ cached2 rq, Inv colsOf g ∧ Frame st0 g ∧ g.caller k = ⟨.exec2 op cached2, .req op.node (.execute rq)⟩ ∧
+      rq.id = (st0.objs op.obj).id ∧ rq.values = op.values ∧ rq.pageSize = op.pageSize ∧ rq.ps = op.ps ∧
+      (g.node op.node).prepared.contains rq.id = true ∧ lookupId rq.id (g.node op.node).prepared = some s := by
+  intro a b c d e f g
+  -- state a
+  have fa : Frame st0 a := others_frame ys0 st0 k h0
+  have inva : Inv colsOf a := inv_exec colsOf ys0 st0 hinv (others_eventsOK colsOf ys0 k h0)
+  have hca : a.caller k = ⟨.exec1 op cached, .resp (.unprepared uid)⟩ := by
+    rw [show a = exec st0 ys0 from rfl, others_caller ys0 st0 k h0]; exact hc
+  have hta : (a.objs op.obj).text = txt := ((fa.ident _ hobj).2).trans htext
+  -- step b: PREPARE is sent
+  have hb : b = (setCaller a k ⟨.execPrep op, .req op.node (.prepare (txt))⟩, .sent op.node (.prepare (txt))) := by
+    rw [show b = recv a k from rfl, exec_unprepared_sends_prepare a k op cached uid hca, hta]
+  have fb : Frame st0 b.1 := by
+    rw [hb]; exact ⟨fa.nodeSt, fa.nodeExt, fa.nodeOv, fa.prepared, fa.ident, fa.nObjs⟩
+  have invb : Inv colsOf b.1 := by
+    have := inv_step colsOf a (.recv k) inva (fun _ _ h => by cases h)
+    simpa [step] using this
+  have hcb : b.1.caller k = ⟨.execPrep op, .req op.node (.prepare (txt))⟩ := by rw [hb]; simp [setCaller]
+  -- state c
+  have fc : Frame st0 c := fb.trans (others_frame ys1 b.1 k h1)
+  have invc : Inv colsOf c := inv_exec colsOf ys1 b.1 invb (others_eventsOK colsOf ys1 k h1)
+  have hcc : c.caller k = ⟨.execPrep op, .req op.node (.prepare (txt))⟩ := by
+    rw [show c = exec b.1 ys1 from rfl, others_caller ys1 b.1 k h1]; exact hcb
+  -- step d: the node prepares
+  have hovc : (c.node op.node).ov = none := fc.nodeOv _ (hinv.1 op.node).1
+  have hstc : (c.node op.node).st = (st0.node op.node).st := fc.nodeSt _
+  have hserve_c := serve_plain_prepare (c.node op.node) (txt) s hovc hs
+    (by rw [hstc]; exact hpf)
+  have hd : d = ({ c with node := upd c.node op.node (serve (c.node op.node) (.prepare (txt))).1,
+                          caller := upd c.caller k { c.caller k with wire := .resp (serve (c.node op.node) (.prepare (txt))).2 } },
+                 .served (serve (c.node op.node) (.prepare (txt))).2) := by
+    simp [show d = serveStep c k from rfl, serveStep, hcc]
+  let pid : SId := idOf txt ((c.node op.node).st s).idv
+  have hpid : pid = (st0.objs op.obj).id := by rw [hid, ← hstc]
+  have fd : Frame c d.1 := by
+    have := frame_step c (.serve k) ⟨k, rfl⟩
+    simpa [step] using this
+  have invd : Inv colsOf d.1 := by
+    have := inv_step colsOf c (.serve k) invc (fun _ _ h => by cases h)
+    simpa [step] using this
+  have hcd : ∃ p, d.1.caller k = ⟨.execPrep op, .resp (.prepared p)⟩ ∧ d.2 = .served (.prepared p) ∧ p.id = pid := by
+    rw [hd, hserve_c]
+    exact ⟨_, by simp [hcc], rfl, rfl⟩
+  have hprepd : (d.1.node op.node).prepared.contains pid = true := by
+    rw [hd, hserve_c]; simp [pid]
+  obtain ⟨p, hcdp, hd2, hpidp⟩ := hcd
+  -- state e
+  have fe0 : Frame d.1 e := others_frame ys2 d.1 k h2
+  have fe : Frame st0 e := (fc.trans fd).trans fe0
+  have inve : Inv colsOf e := inv_exec colsOf ys2 d.1 invd (others_eventsOK colsOf ys2 k h2)
+  have hce : e.caller k = ⟨.execPrep op, .resp (.prepared p)⟩ := by
+    rw [show e = exec d.1 ys2 from rfl, others_caller ys2 d.1 k h2]; exact hcdp
+  have hide : p.id = (e.objs op.obj).id := by rw [hpidp, hpid, (fe.ident _ hobj).1]
+  -- step f: the EXECUTE is sent again
+  obtain ⟨cur', _, hf⟩ := exec_reprepared_resends e k op p hce hide
+  simp only at hf
+  have hf' : f = _ := hf
+  have ff : Frame e f.1 := by
+    have := frame_step e (.recv k) ⟨k, rfl⟩
+    simpa [step] using this
+  have invf : Inv colsOf f.1 := by
+    have := inv_step colsOf e (.recv k) inve (fun _ _ h => by cases h)
+    simpa [step] using this
+  let cp := cachedParams (e.node op.node).ext op.useCached cur'
+  let rq := execFrame (e.objs op.obj) op cp
+  have hcf : f.1.caller k = ⟨.exec2 op cp.cached, .req op.node (.execute rq)⟩ := by rw [hf']; simp [setCaller, cp, rq]
+  have hf2 : f.2 = .sent op.node (.execute rq) := by rw [hf']
+  have hrqid : rq.id = (st0.objs op.obj).id := (fe.ident _ hobj).1
+  -- state g
+  have fg0 : Frame f.1 g := others_frame ys3 f.1 k h3
+  have invg : Inv colsOf g := inv_exec colsOf ys3 f.1 invf (others_eventsOK colsOf ys3 k h3)
+  have hcg : g.caller k = ⟨.exec2 op cp.cached, .req op.node (.execute rq)⟩ := by
+    rw [show g = exec f.1 ys3 from rfl, others_caller ys3 f.1 k h3]; exact hcf
+  have fdg : Frame d.1 g := (fe0.trans ff).trans fg0
+  have fg : Frame st0 g := (fc.trans fd).trans fdg
+  have hovg : (g.node op.node).ov = none := fg.nodeOv _ (hinv.1 op.node).1
+  have hstg : (g.node op.node).st = (st0.node op.node).st := fg.nodeSt _
+  have hprepg : (g.node op.node).prepared.contains rq.id = true := by
+    rw [hrqid, ← hpid]; exact fdg.prepared _ _ hprepd
+  have hlook : lookupId rq.id (g.node op.node).prepared = some s := by
+    have hst : rq.id.text = txt := by rw [hrqid, hid]; rfl
+    simp only [lookupId, hprepg, ↓reduceIte, hst, hs]
+  exact ⟨cp.cached, rq, invg, fg, hcg, hrqid, rfl, rfl, rfl, hprepg, hlook⟩
+
 /-- `eviction_transparent` (history level). Let a caller `k` have an EXECUTE answered UNPREPARED (response in
 flight) by a node WITH the extension, in a state satisfying `Inv`; the statement is one the node can prepare
 (`prepFail = false`, no byzantine answer pending) and its id is the one the node assigns (no id change). Then for
@@ -1926,6 +2028,209 @@ theorem eviction_transparent (st0 : State) (hinv : Inv colsOf st0) (k : Nat) (op
     rw [decodeRows_genRows]
     rfl
   · rw [show j = recv i k from rfl, hj]; simp [setCaller]
+
+/-! ### node events falling INSIDE the operation -/
+
+private theorem evict_removes (n : Node) (s : Nat) (id : SId) (h : stmtOfText id.text = some s) :
+    lookupId id (applyEvent n (.evict s)).prepared = none := by
+  have hp : (applyEvent n (.evict s)).prepared = n.prepared.filter (fun e => stmtOfText e.text != some s) := rfl
+  have : (applyEvent n (.evict s)).prepared.contains id = false := by
+    rw [hp, List.contains_eq_mem]
+    simp only [decide_eq_false_iff_not, List.mem_filter, not_and]
+    intro _
+    simp [h]
+  unfold lookupId
+  rw [this]
+  rfl
+
+/-- `second_eviction_reaches_caller`: if the node forgets the statement AGAIN after the re-preparation - the eviction
+falls between the re-sent EXECUTE being sent and the node consuming it - the node answers UNPREPARED again and the
+caller gets that error (`DbError::Unprepared`, 0x2500): the EXECUTE path re-prepares and re-sends ONCE
+(connection.rs:1102-1146), through any interleaving of other callers' steps. -/
+theorem second_eviction_reaches_caller (st0 : State) (hinv : Inv colsOf st0) (k : Nat) (op : ExecOp)
+    (cached : Option RMeta) (uid : SId) (s : Nat)
+    (hc : st0.caller k = ⟨.exec1 op cached, .resp (.unprepared uid)⟩)
+    (hobj : op.obj < st0.nObjs) (txt : String) (hs : stmtOfText txt = some s) (htext : (st0.objs op.obj).text = txt)
+    (hid : (st0.objs op.obj).id = idOf txt (((st0.node op.node).st s).idv))
+    (hpf : ((st0.node op.node).st s).prepFail = false)
+    (ys0 ys1 ys2 ys3 ys4 : List Step)
+    (h0 : Others k ys0) (h1 : Others k ys1) (h2 : Others k ys2) (h3 : Others k ys3) (h4 : Others k ys4) :
+    let g := exec (recv (exec (serveStep (exec (recv (exec st0 ys0) k).1 ys1) k).1 ys2) k).1 ys3
+    let g' := (eventStep g op.node (.evict s)).1
+    let h := serveStep g' k
+    let j := recv (exec h.1 ys4) k
+    (∃ u, h.2 = .served (.unprepared u)) ∧ j.2 = .done (.dbError unpreparedCode) ∧ j.1.caller k = ⟨.idle, .none⟩ := by
+  intro g g' h j
+  obtain ⟨cached2, rq, _, fg, hcg, hrqid, _, _, _, _, _⟩ := eviction_chain colsOf st0 hinv k op cached uid s hc hobj txt hs
+    htext hid hpf ys0 ys1 ys2 ys3 h0 h1 h2 h3
+  have hcg' : g'.caller k = ⟨.exec2 op cached2, .req op.node (.execute rq)⟩ := by
+    show (eventStep g op.node (.evict s)).1.caller k = _
+    simp [eventStep]; exact hcg
+  have hnode : g'.node op.node = applyEvent (g.node op.node) (.evict s) := by
+    show (eventStep g op.node (.evict s)).1.node op.node = _
+    simp [eventStep]
+  have hidt : stmtOfText rq.id.text = some s := by rw [hrqid, hid]; exact hs
+  have hserve : (serve (g'.node op.node) (.execute rq)).2 = .unprepared (if (g'.node op.node).liar then bogusId else rq.id) := by
+    rw [hnode]
+    simp [serve, evict_removes _ s rq.id hidt]
+  have hh : h = ({ g' with node := upd g'.node op.node (serve (g'.node op.node) (.execute rq)).1,
+                           caller := upd g'.caller k { g'.caller k with wire := .resp (serve (g'.node op.node) (.execute rq)).2 } },
+                 .served (serve (g'.node op.node) (.execute rq)).2) := by
+    simp [show h = serveStep g' k from rfl, serveStep, hcg']
+  have hch : h.1.caller k = ⟨.exec2 op cached2, .resp (.unprepared (if (g'.node op.node).liar then bogusId else rq.id))⟩ := by
+    rw [hh, hserve]; simp [hcg']
+  have hci : (exec h.1 ys4).caller k = ⟨.exec2 op cached2, .resp (.unprepared (if (g'.node op.node).liar then bogusId else rq.id))⟩ := by
+    rw [others_caller ys4 h.1 k h4]; exact hch
+  have hj := exec_final_response_is_outcome (exec h.1 ys4) k op cached2 _ hci
+  refine ⟨⟨_, by rw [hh, hserve]⟩, ?_, ?_⟩
+  · rw [show j = recv (exec h.1 ys4) k from rfl, hj]; simp [execOutcome]
+  · rw [show j = recv (exec h.1 ys4) k from rfl, hj]; simp [setCaller]
+
+/-- `id_change_inside_is_error`: if the node starts assigning ANOTHER id to the statement before it consumes the
+re-preparation, the PREPARED answer carries that other id, the caller gets `RepreparedIdChanged`, and nothing is sent
+afterwards - through any interleaving of other callers' steps. -/
+theorem id_change_inside_is_error (st0 : State) (k : Nat) (op : ExecOp) (cached : Option RMeta) (uid : SId) (s : Nat)
+    (hc : st0.caller k = ⟨.exec1 op cached, .resp (.unprepared uid)⟩)
+    (hobj : op.obj < st0.nObjs) (txt : String) (hs : stmtOfText txt = some s) (htext : (st0.objs op.obj).text = txt)
+    (hid : (st0.objs op.obj).id = idOf txt (((st0.node op.node).st s).idv))
+    (hov : (st0.node op.node).ov = none) (hpf : ((st0.node op.node).st s).prepFail = false)
+    (ys0 ys1 ys2 : List Step) (h0 : Others k ys0) (h1 : Others k ys1) (h2 : Others k ys2) :
+    let c := exec (recv (exec st0 ys0) k).1 ys1
+    let c' := (eventStep c op.node (.idChange s)).1
+    let d := serveStep c' k
+    let f := recv (exec d.1 ys2) k
+    (∃ p, d.2 = .served (.prepared p) ∧ p.id ≠ (st0.objs op.obj).id) ∧
+    f.2 = .done .repreparedIdChanged ∧ f.1.caller k = ⟨.idle, .none⟩ := by
+  intro c c' d f
+  have fa : Frame st0 (exec st0 ys0) := others_frame ys0 st0 k h0
+  have hca : (exec st0 ys0).caller k = ⟨.exec1 op cached, .resp (.unprepared uid)⟩ := by
+    rw [others_caller ys0 st0 k h0]; exact hc
+  have hta : ((exec st0 ys0).objs op.obj).text = txt := ((fa.ident _ hobj).2).trans htext
+  have hb : recv (exec st0 ys0) k = (setCaller (exec st0 ys0) k ⟨.execPrep op, .req op.node (.prepare txt)⟩, .sent op.node (.prepare txt)) := by
+    rw [exec_unprepared_sends_prepare _ k op cached uid hca, hta]
+  have fb : Frame st0 (recv (exec st0 ys0) k).1 := by
+    rw [hb]; exact ⟨fa.nodeSt, fa.nodeExt, fa.nodeOv, fa.prepared, fa.ident, fa.nObjs⟩
+  have hcb : (recv (exec st0 ys0) k).1.caller k = ⟨.execPrep op, .req op.node (.prepare txt)⟩ := by rw [hb]; simp [setCaller]
+  have fc : Frame st0 c := fb.trans (others_frame ys1 _ k h1)
+  have hcc : c.caller k = ⟨.execPrep op, .req op.node (.prepare txt)⟩ := by
+    rw [show c = exec (recv (exec st0 ys0) k).1 ys1 from rfl, others_caller ys1 _ k h1]; exact hcb
+  have hcc' : c'.caller k = ⟨.execPrep op, .req op.node (.prepare txt)⟩ := by
+    show (eventStep c op.node (.idChange s)).1.caller k = _
+    simp [eventStep]; exact hcc
+  have hnode : c'.node op.node = applyEvent (c.node op.node) (.idChange s) := by
+    show (eventStep c op.node (.idChange s)).1.node op.node = _
+    simp [eventStep]
+  have hstc : (c.node op.node).st = (st0.node op.node).st := fc.nodeSt _
+  have hov' : (c'.node op.node).ov = none := by rw [hnode]; simp [applyEvent]; exact fc.nodeOv _ hov
+  have hidv : ((c'.node op.node).st s).idv = ((st0.node op.node).st s).idv + 1 := by
+    rw [hnode]; simp [applyEvent, setSt, hstc]
+  have hpf' : ((c'.node op.node).st s).prepFail = false := by
+    rw [hnode]; simp [applyEvent, setSt, hstc, hpf]
+  have hserve := serve_plain_prepare (c'.node op.node) txt s hov' hs hpf'
+  have hd : d = ({ c' with node := upd c'.node op.node (serve (c'.node op.node) (.prepare txt)).1,
+                           caller := upd c'.caller k { c'.caller k with wire := .resp (serve (c'.node op.node) (.prepare txt)).2 } },
+                 .served (serve (c'.node op.node) (.prepare txt)).2) := by
+    simp [show d = serveStep c' k from rfl, serveStep, hcc']
+  have hobjs_c' : c'.objs = c.objs := rfl
+  have hd_objs : d.1.objs = c'.objs := by rw [hd]
+  obtain ⟨p, hp, hcd⟩ : ∃ p, (serve (c'.node op.node) (.prepare txt)).2 = .prepared p ∧ p.id = idOf txt (((st0.node op.node).st s).idv + 1) := by
+    rw [hserve]; exact ⟨_, rfl, by simp [hidv]⟩
+  have hne : p.id ≠ (st0.objs op.obj).id := by
+    rw [hcd, hid]; simp [idOf]
+  have hcdk : d.1.caller k = ⟨.execPrep op, .resp (.prepared p)⟩ := by rw [hd, hp]; simp [hcc']
+  have fd : Frame c' d.1 := by
+    have := frame_step c' (.serve k) ⟨k, rfl⟩
+    simpa [step] using this
+  have fe : Frame d.1 (exec d.1 ys2) := others_frame ys2 d.1 k h2
+  have hce : (exec d.1 ys2).caller k = ⟨.execPrep op, .resp (.prepared p)⟩ := by
+    rw [others_caller ys2 d.1 k h2]; exact hcdk
+  have hobj_c' : op.obj < c'.nObjs := Nat.lt_of_lt_of_le hobj fc.nObjs
+  have hide : ((exec d.1 ys2).objs op.obj).id = (st0.objs op.obj).id := by
+    have e1 := (fe.ident op.obj (Nat.lt_of_lt_of_le hobj_c' fd.nObjs)).1
+    have e2 := (fd.ident op.obj hobj_c').1
+    have e3 := (fc.ident op.obj hobj).1
+    rw [e1, e2]; exact e3
+  have hf := reprepare_id_mismatch_is_error (exec d.1 ys2) k op p hce (by rw [hide]; exact hne)
+  refine ⟨⟨p, by rw [hd, hp], hne⟩, ?_, ?_⟩
+  · rw [show f = recv (exec d.1 ys2) k from rfl, hf]
+  · rw [show f = recv (exec d.1 ys2) k from rfl, hf]; simp [setCaller]
+
+/-- `schema_change_inside_is_harmless`: the schema of the statement changes (id ↦ columns respected) after the
+re-preparation, right before the node consumes the re-sent EXECUTE, on a node with the extension: the caller still ends
+with the rows the node encoded, decoded under the node's NEW columns. -/
+theorem schema_change_inside_is_harmless (st0 : State) (hinv : Inv colsOf st0) (k : Nat) (op : ExecOp)
+    (cached : Option RMeta) (uid : SId) (s : Nat) (m : SMeta)
+    (hc : st0.caller k = ⟨.exec1 op cached, .resp (.unprepared uid)⟩)
+    (hobj : op.obj < st0.nObjs) (txt : String) (hs : stmtOfText txt = some s) (htext : (st0.objs op.obj).text = txt)
+    (hid : (st0.objs op.obj).id = idOf txt (((st0.node op.node).st s).idv))
+    (hext : (st0.node op.node).ext = true) (hpf : ((st0.node op.node).st s).prepFail = false)
+    (hm : EventOK colsOf (.schemaChange s m))
+    (ys0 ys1 ys2 ys3 ys4 : List Step)
+    (h0 : Others k ys0) (h1 : Others k ys1) (h2 : Others k ys2) (h3 : Others k ys3) (h4 : Others k ys4) :
+    let g := exec (recv (exec (serveStep (exec (recv (exec st0 ys0) k).1 ys1) k).1 ys2) k).1 ys3
+    let g' := (eventStep g op.node (.schemaChange s m)).1
+    let j := recv (exec (serveStep g' k).1 ys4) k
+    (∃ mu more, j.2 = .done (.rows mu (some (typedRows m.cols (op.values.headD 0) op.pageSize op.ps)) more) ∧
+      mu.cols = m.cols) ∧ j.1.caller k = ⟨.idle, .none⟩ := by
+  intro g g' j
+  obtain ⟨cached2, rq, invg, fg, hcg, hrqid, hv, hpg, hps, hprep, hlook⟩ := eviction_chain colsOf st0 hinv k op cached uid s
+    hc hobj txt hs htext hid hpf ys0 ys1 ys2 ys3 h0 h1 h2 h3
+  have invg' : Inv colsOf g' := by
+    have := inv_step colsOf g (.event op.node (.schemaChange s m)) invg (fun n e h => by cases h; exact hm)
+    simpa [step] using this
+  have hcg' : g'.caller k = ⟨.exec2 op cached2, .req op.node (.execute rq)⟩ := by
+    show (eventStep g op.node (.schemaChange s m)).1.caller k = _
+    simp [eventStep]; exact hcg
+  have hnode : g'.node op.node = applyEvent (g.node op.node) (.schemaChange s m) := by
+    show (eventStep g op.node (.schemaChange s m)).1.node op.node = _
+    simp [eventStep]
+  have hextg' : (g'.node op.node).ext = true := by rw [hnode, applyEvent_ext]; exact (fg.nodeExt _).trans hext
+  have hovg' : (g'.node op.node).ov = none := (invg'.1 op.node).1
+  have hsm : ((g'.node op.node).st s).smeta = m := by rw [hnode]; simp [applyEvent, setSt]
+  have hlook' : lookupId rq.id (g'.node op.node).prepared = some s := by rw [hnode]; simpa [applyEvent] using hlook
+  have hserve := serve_plain_execute (g'.node op.node) rq hovg'
+  rw [hlook'] at hserve
+  simp only [hsm] at hserve
+  let h := serveStep g' k
+  have hh : h = ({ g' with node := upd g'.node op.node (serve (g'.node op.node) (.execute rq)).1,
+                           caller := upd g'.caller k { g'.caller k with wire := .resp (serve (g'.node op.node) (.execute rq)).2 } },
+                 .served (serve (g'.node op.node) (.execute rq)).2) := by
+    simp [show h = serveStep g' k from rfl, serveStep, hcg']
+  have hrows : ∃ rr, (serve (g'.node op.node) (.execute rq)).2 = .rows rr ∧
+      rr.rows = (genRows m.cols (rq.values.headD 0) rq.pageSize rq.ps).1 ∧
+      (metaUsed true cached2 rr).cols = m.cols ∧ rowsMalformed true rr = false := by
+    by_cases hch : ((g'.node op.node).ext && rq.mid != some m.mid) = true
+    · rw [hserve]; simp only [hch, ↓reduceIte]
+      exact ⟨_, rfl, rfl, by simp [metaUsed], by simp [rowsMalformed]⟩
+    · by_cases hsk : rq.skip = true
+      · have hs2 : (serve (g'.node op.node) (.execute rq)).2 = .rows ⟨true, none, m.cols.length, [],
+            (genRows m.cols (rq.values.headD 0) rq.pageSize rq.ps).2, (genRows m.cols (rq.values.headD 0) rq.pageSize rq.ps).1⟩ := by
+          rw [hserve]; simp only [hch, hsk, ↓reduceIte]; rfl
+        obtain ⟨s', c', hl', hc', hcols', _, hmu'⟩ := decode_metadata_faithful colsOf g' invg' k op cached2 op.node rq _
+          (Or.inr (by rw [hcg'])) (by rw [hcg']) hextg' hs2 rfl
+        rw [hlook'] at hl'
+        simp only [Option.some.injEq] at hl'
+        subst hl'
+        refine ⟨_, hs2, rfl, ?_, by simp [rowsMalformed, newIdSeen]⟩
+        rw [hmu', hcols', hsm]
+      · rw [hserve]; simp only [hch, hsk, ↓reduceIte]
+        exact ⟨_, rfl, rfl, by simp [metaUsed], by simp [rowsMalformed, newIdSeen]⟩
+  obtain ⟨rr, hrr, hrrows, hmcols, hwf⟩ := hrows
+  have hch2 : h.1.caller k = ⟨.exec2 op cached2, .resp (.rows rr)⟩ := by rw [hh, ← hrr]; simp [hcg']
+  have hci : (exec h.1 ys4).caller k = ⟨.exec2 op cached2, .resp (.rows rr)⟩ := by
+    rw [others_caller ys4 h.1 k h4]; exact hch2
+  have fh : Frame g' h.1 := by
+    have := frame_step g' (.serve k) ⟨k, rfl⟩
+    simpa [step] using this
+  have hexti : ((exec h.1 ys4).node op.node).ext = true :=
+    (((others_frame ys4 h.1 k h4).nodeExt _).trans (fh.nodeExt _)).trans hextg'
+  have hj := exec_final_response_is_outcome (exec h.1 ys4) k op cached2 (.rows rr) hci
+  rw [hexti] at hj
+  refine ⟨⟨metaUsed true cached2 rr, rr.more, ?_, hmcols⟩, ?_⟩
+  · rw [show j = recv (exec h.1 ys4) k from rfl, hj]
+    simp only [execOutcome, hwf, Bool.false_eq_true, ↓reduceIte, hmcols, hrrows]
+    rw [decodeRows_genRows, hv, hpg, hps]
+  · rw [show j = recv (exec h.1 ys4) k from rfl, hj]; simp [setCaller]
 
 /-- `eviction_transparent` with its per-state hypotheses about the statement object DERIVED from reachability
 (`WF`, preserved by every step: `wf_exec`): the object exists and the id it holds was issued for EXACTLY its text.
